@@ -32,7 +32,7 @@ def check(pid, level, text, note, technique, ref):
     )
 
 check("C02", "exploration",
-      "Seeded search over generated seek/apply/current_pos/failed-request histories on all seven cipher types, in release, overflow-checked and opt-level-0 builds, on simulated hosts of every SIMD level, on no-std/portable/target-cpu=native builds and on a big-endian host (Miri); every step is compared with a position model and an independent ChaCha spec model, and a mismatch is decided by comparing different histories of the real code. Single calls with 2-4 GiB slices are compared with the same bytes in pieces. Histories are unbounded, so sampling with model-state coverage measurement is the honest level.",
+      "Seeded search over generated seek/apply/current_pos/failed-request histories on all seven cipher types, in release, overflow-checked and opt-level-0 builds, on simulated hosts of every SIMD level, on no-std/portable/target-cpu=native builds, on foreign hosts (s390x, powerpc, arm; thorough aarch64, i686) and simulated CPU generations under Miri; every step is compared with a position model and an independent ChaCha spec model, and a mismatch is decided by comparing different histories of the real code. Single calls with 2-8 GiB slices are compared with the same bytes in pieces; a single call over 2^38 + 4096 bytes (one 64 MiB memory object mapped back to back) must be accepted by the 64-bit-counter variants (thorough: completed and compared). Histories are unbounded, so sampling with model-state coverage measurement is the honest level.",
       "Trusted: the ChaCha spec model (validated against RFC 7539 / draft-xchacha / Bernstein vectors at every start), the position model, rustc/cargo. Not covered: positions reachable only by streaming > 2^64 bytes.",
       "deterministic simulation: seeded operation histories + reference model + real-code differential", "6.1")
 check("C11", "exploration",
@@ -41,15 +41,15 @@ check("C11", "exploration",
       "deterministic simulation with fault injection (keystream exhaustion) + reference model", "6.2")
 
 check("C03", "exploration",
-      "Every seeded run of the cipher, block-API and dispatching-hash scenarios is executed on all five run-time capability levels in one process (hook H1 makes the detection result a simulated input) and, with the same seed, in six separately built workers (portable/no_simd and the five no-std compile-time dispatch arms); transcripts must be identical after every step / per run. Seeded programs of vector operations (every operation group of the Machine trait bounds, all ten vector types) run on the five x86 Machine types at once and on the generic machine. A big-endian host (s390x build interpreted by Miri) executes the same seeded operation list as its little-endian twin. A panic or wrong result on one host where another returns is a violation.",
-      "Trusted: hook H1 takes exactly the arm a real CPU of that level would take (its match arms mirror the detection chains); the real CPU must support the simulated level (AVX2 here). For vector operations only cross-backend identity is judged. One open known finding: JH digests on the big-endian host (known_findings.json).",
+      "Every seeded run of the cipher, block-API and dispatching-hash scenarios is executed on all five run-time capability levels in one process (hook H1 makes the detection result a simulated input) and, with the same seed, in six separately built workers (portable/no_simd and the five no-std compile-time dispatch arms); transcripts must be identical after every step / per run. Seeded programs of vector operations (every operation group of the Machine trait bounds, all ten vector types) run on the five x86 Machine types at once and on the generic machine. Foreign hosts (s390x, i686, powerpc, arm, aarch64 builds interpreted by Miri) execute the same seeded operation list as the native twin, incl. vector programs that load and store through read_le/read_be/write_le/write_be. Six simulated CPU generations (the x86 backend with run-time detection as shipped, interpreted by Miri with exactly sse2 / +sse3 / +ssse3 / +sse4.1 / +avx / +avx2) run it too: the interpreter answers feature detection from that set and refuses any instruction of an extension the simulated CPU lacks. A cargo-feature build (threefish no_unroll) joins the cross-build comparison. A panic, refused instruction or wrong result on one host where another returns is a violation.",
+      "Trusted: hook H1 takes exactly the arm a real CPU of that level would take (its match arms mirror the detection chains); the real CPU must support the simulated level (AVX2 here). For vector operations only cross-backend identity is judged. The x86 backend reaches the interpreter through an overlay copy of ppv-lite86 (its four cfg(miri) conditions switched) that the check makes from /repo's working tree. No open known finding (the JH big-endian defect is fixed: a3fb3e4).",
       "deterministic simulation: simulated CPU-capability hosts (run-time via hook, build-time via features) + cross-host transcript equality", "6.5")
 check("C08", "exploration",
-      "Seeded search over update/chain/clone/clone_from/reset/finalize_reset/finalize_fixed_reset/finalize_into(_reset)/finalize_into_dirty+reset/finalize/drop histories on interleaved instances of all 15 hash types (+9 more Skein output sizes), pieces aimed at every buffer fill level and padding boundary, counter jumps (H2) so that chunking is also exercised next to counter carries, update with a non-idempotent AsRef argument; every digest is compared with the same type's one-shot digest of the modelled byte string, so only history dependence (not spec conformance) can raise an alarm. One update call of 512 MiB / 4 GiB is compared with the same bytes in 1 MiB pieces.",
+      "Seeded search over update/chain/clone/clone_from/reset/finalize_reset/finalize_fixed_reset/finalize_into(_reset)/finalize_into_dirty+reset/finalize/drop histories on interleaved instances of all 15 hash types (+18 more Skein output sizes), pieces aimed at every buffer fill level and padding boundary, counter jumps (H2) so that chunking is also exercised next to counter carries, update with a non-idempotent AsRef argument; every digest is compared with the same type's one-shot digest of the modelled byte string, so only history dependence (not spec conformance) can raise an alarm. One update call of 512 MiB / 4 GiB / 8 GiB (thorough: 32 GiB for every family, 256 GiB) is compared with the same bytes in 1 MiB pieces.",
       "Trusted: the byte-list model; Digest::digest of the same type as oracle. Runs are capped at 64 KiB.",
       "deterministic simulation: seeded operation histories + byte-list reference model", "6.6")
 check("C14", "exploration",
-      "Seeded block-API histories with counters aimed at every carry lane (low word within 4 of 2^32) and at the 2^64 wrap, double rounds 0..=10, on every simulated host (five in-process levels, portable and five no-std builds): refill4 versus four refills from a cloned state (bytes and resulting state), counter/stream-id read back after every step, emitted block compared with the spec block of the modelled counter. The cfg(target_endian = big) counter helpers run on a big-endian simulated host (s390x build under Miri) whose transcript is compared with the little-endian twin.",
+      "Seeded block-API histories with counters aimed at every carry lane (low word within 4 of 2^32) and at the 2^64 wrap, double rounds 0..=10, on every simulated host (five in-process levels, portable and five no-std builds): refill4 versus four refills from a cloned state (bytes and resulting state), counter/stream-id read back after every step, emitted block compared with the spec block of the modelled counter. The cfg(target_endian = big) counter helpers - and whatever cfg(target_pointer_width) / cfg(target_arch) code a change adds - run on foreign hosts (s390x, powerpc, arm, aarch64, i686 builds under Miri) and on six simulated CPU generations (x86 backend under Miri), whose transcripts are compared with the native twin; double-round counts of 2^16, 2^24+1, 2^31 (thorough 2^32-1) are compared on five threads.",
       "Trusted: the counter model; the spec block function only to recognise position errors (a block that equals the spec block of a nearby counter). Other spec deviations are C01 territory.",
       "deterministic simulation: seeded operation histories on simulated hosts + state model + real-code differential", "6.3")
 check("C15", "exploration",
@@ -58,7 +58,7 @@ check("C15", "exploration",
       "deterministic simulation: seeded operation histories + state model", "6.4")
 
 check("C16", "fault_enumeration",
-      "Every byte-slice argument of every public operation is placed by a guard-page arena the simulator owns; the injected fault is the page fault (or a changed canary) that an access outside the slice causes. Both tiers enumerate completely the 3 placements x 64 start alignments / length residues for every (operation kind, buffered-prefix class, length class, simulated host level) combination; data contents are sampled. The result must equal the same call on an ordinary buffer and the process must survive. A second pass runs the operations under Miri with every slice an exact-size allocation (byte-granular bounds and alignment checking), which sees what page granularity cannot.",
+      "Every byte-slice argument of every public operation is placed by a guard-page arena the simulator owns; the injected fault is the page fault (or a changed canary) that an access outside the slice causes. Both tiers enumerate completely the 3 placements x 64 start alignments / length residues for every (operation kind, buffered-prefix class, length class, simulated host level) combination; data contents are sampled. The result must equal the same call on an ordinary buffer and the process must survive. A second pass runs the operations under Miri with every slice an exact-size allocation (byte-granular bounds and alignment checking), on the portable backend and on the x86 backend (AVX2 machine), and a third under valgrind's memcheck on exact-size heap blocks (native SIMD code), which see what page granularity cannot. Single calls of 2-5 GiB end at an unmapped page. Builds: std, overflow-checked, portable, target-cpu=native, cargo features (threefish no_unroll), Groestl's non-AES fallbacks (hook H3).",
       "Trusted: mmap/mprotect semantics of Linux; an out-of-slice READ that stays inside the mapped page is not observable (both edge placements are enumerated to minimise this); input slices are read-only pages. Vector code paths per host level through hook H1; explicit Machine types for vector byte I/O.",
       "deterministic simulation with fault injection: simulator-owned buffer placement against unmapped pages, complete enumeration of placements/alignments", "6.7")
 check("C17", "exploration",
@@ -67,8 +67,8 @@ check("C17", "exploration",
       "deterministic simulation: simulated clock (length counter) jumps + independent reference models + real streaming across the first boundary", "6.8")
 
 check("C18", "exploration",
-      "Two schedulers for the two halves of the property. Instances of every algorithm are interleaved in one thread by the seeded scheduler and each instance's transcript is compared with the same operations replayed alone (fresh world and thread; for a fraction of the runs alone in a brand-new process, so that statics are cold and no other instance ever existed). Threads: a workload of 2-4 threads released by a barrier, first calls racing on the one-time initialisations, runs in a fresh Miri interpreter per scheduler seed (a cold process); Miri's seeded scheduler decides every preemption, its race/deadlock detector is on, results are compared with sequential expectations computed natively.",
-      "Trusted: Miri's scheduler and data-race detector; under Miri the algorithms run on the portable ppv-lite86 backend and Groestl on Miri's AES-NI shims, so an intra-call race confined to the x86 vector modules or to std's CPUID cache is out of reach. Scheduler seeds are sampled.",
+      "Two schedulers for the two halves of the property. Instances of every algorithm are interleaved in one thread by the seeded scheduler and each instance's transcript is compared with the same operations replayed alone (fresh world and thread; for a fraction of the runs alone in a brand-new process, so that statics are cold and no other instance ever existed). Threads: 136 enumerated workloads of 2-5 threads released by a barrier (first calls of every algorithm racing on the one-time initialisations; bulk calls of several KiB incl. five concurrent callers; 'hammer' workloads of repeated short calls; the hammer after 246 / 65526 constructions), each in a fresh Miri interpreter per (workload, scheduler seed, preemption rate) - a cold process; Miri's seeded scheduler decides every preemption, its race/deadlock detector is on, results are compared with sequential expectations computed natively, and a failure is re-run with the threads one after the other to decide whether it needs overlap.",
+      "Trusted: Miri's scheduler and data-race detector; under Miri the algorithms run on the portable ppv-lite86 backend and, in about half of the runs, on the x86 backend (overlay build, AVX2 machine), Groestl on Miri's AES-NI shims; std's CPUID cache is answered by the interpreter and not raced. Workloads are enumerated, schedules (seed x preemption rate) are sampled.",
       "deterministic simulation: seeded call-level interleaving with isolation replay (thread / cold process) + controlled thread scheduler (Miri seeds) from a cold process", "6.9")
 
 def main():
